@@ -19,6 +19,17 @@ CHECKS = {
         note='Trusted: z3 5.1.0; the SInt proxy (differentially tested against Python ints); CPython int semantics. '
              'Bounds: plain-int operands and constructor arguments |v| <= 2^(n+3); shift counts 0..2n; divisor != 0; exponents 0..3.',
         design='5/C14', engine='E2'),
+    'C18': dict(
+        level='model_checking',
+        technique='symbolic execution of the real PowerPC matcher/decoder/encoder on one symbolic 32-bit word; per-path SMT (z3)',
+        text='The whole 32-bit word is a single symbolic integer. Every path of the real class matcher, field parser and '
+             're-encoder is explored (thorough: all 64 primary opcodes = all 2^32 words; quick: 20 opcodes incl. the dense ones); '
+             'on each path the solver proves: at most one class claims the word, and bin() == word for every word of the path. '
+             'Mnemonic-vs-architecture and the render/assemble text fixpoint are decided at witnesses only (path witness vs llvm-mc; '
+             'smallest and largest word of each path through str()/asm()) and are labelled so.',
+        note='Trusted: z3, the SInt proxy, llvm-mc 14 as arbiter of mnemonics at witnesses (alias table in c18.py). '
+             'Text clause is witness-level, not for every word.',
+        design='5/C18', engine='E2'),
 }
 
 NOT_APPLICABLE = {
